@@ -45,7 +45,11 @@ def run(chk):
                   steps=60 if q else 150, nconv=25 if q else 1500)
              for i in range(n)]
     sh, _ = chk.generate(mdd_drv.c15_task, tasks)
-    chk.validate('TraceMDD', 'TraceMDD.cfg', sh + gsh)
+    # tables beyond 256 nodes (node numbers that are no longer shared int objects)
+    bt = [dict(shard=chk.shard('mb_c15_%d' % i), tid=15900000 + i, seed=chk.seed * 53 + i, tail=10 if q else 40)
+          for i in range(4 if q else 12)]
+    bsh, _ = chk.generate(mdd_drv.big_task, bt)
+    chk.validate('TraceMDD', 'TraceMDD.cfg', sh + gsh + bsh, merge=False, timeout=6000)
 
     def wrong_umap(tr):
         for ev in tr['events']:
